@@ -259,10 +259,12 @@ def staged_metadata_check(run) -> None:
     from semantiva.context_processors import ContextType
     from semantiva.data_types import NoDataType
     from semantiva.pipeline import Payload, Pipeline
+    from .. import seams
     from ..traced import make_driver, read_records
     import shutil as _sh
     import tempfile as _tf
 
+    seams.setup()
     nodes = [{"processor": "FloatValueDataSource", "parameters": {"value": 2.0}}, {"processor": "FloatMultiplyOperation", "parameters": {"factor": 3.0}}]
 
     def third_start(with_history: bool):
